@@ -475,3 +475,273 @@ pub(crate) fn sched_point(site: usize) {
         std::thread::sleep(std::time::Duration::from_micros(us));
     }
 }
+
+// ---------------------------------------------------------------------------------
+// LoopProbe: the REAL IoLoop::run_io_loop (its poll, handle_steady_event for every event,
+// the throttle and re-registration tail) run on the calling thread. The harness's callback
+// runs where is_done is evaluated - after a batch's events, before its tail - and plays the
+// publishers and the transport. The socket is a user-space registration that is kicked
+// before every poll so that a batch always happens.
+// ---------------------------------------------------------------------------------
+use std::cell::RefCell;
+use std::sync::{Arc, Mutex};
+
+pub struct LoopShared {
+    pub writes: VecDeque<Wr>,
+    pub written: Vec<u8>,
+    /// interest of every (re)registration of the socket: 1 readable, 2 writable, 3 both
+    pub interests: Vec<u8>,
+}
+
+pub struct LoopStream {
+    registration: mio::Registration,
+    shared: Arc<Mutex<LoopShared>>,
+}
+
+impl Read for LoopStream {
+    fn read(&mut self, _: &mut [u8]) -> io::Result<usize> {
+        Err(io::Error::new(io::ErrorKind::WouldBlock, ""))
+    }
+}
+
+impl Write for LoopStream {
+    fn write(&mut self, buf: &[u8]) -> io::Result<usize> {
+        let mut sh = self.shared.lock().unwrap();
+        match sh.writes.pop_front() {
+            None | Some(Wr::Block) => Err(io::Error::new(io::ErrorKind::WouldBlock, "")),
+            Some(Wr::Err) => Err(io::Error::new(io::ErrorKind::BrokenPipe, "")),
+            Some(Wr::Wrote(n)) => {
+                let n = n.min(buf.len());
+                sh.written.extend_from_slice(&buf[..n]);
+                Ok(n)
+            }
+        }
+    }
+    fn flush(&mut self) -> io::Result<()> {
+        Ok(())
+    }
+}
+
+fn interest_code(r: Ready) -> u8 {
+    (if r.is_readable() { 1 } else { 0 }) | (if r.is_writable() { 2 } else { 0 })
+}
+
+impl Evented for LoopStream {
+    fn register(&self, p: &Poll, t: Token, r: Ready, o: PollOpt) -> io::Result<()> {
+        self.shared.lock().unwrap().interests.push(interest_code(r));
+        self.registration.register(p, t, r, o)
+    }
+    fn reregister(&self, p: &Poll, t: Token, r: Ready, o: PollOpt) -> io::Result<()> {
+        self.shared.lock().unwrap().interests.push(interest_code(r));
+        self.registration.reregister(p, t, r, o)
+    }
+    fn deregister(&self, p: &Poll) -> io::Result<()> {
+        mio::Evented::deregister(&self.registration, p)
+    }
+}
+
+impl IoStream for LoopStream {}
+
+/// one handled event of a batch
+#[derive(Clone, Debug)]
+pub struct LoopEvent {
+    pub token: usize,
+    pub ok: bool,
+    pub client_dropped: bool,
+    pub out_after: usize,
+    pub need_after: bool,
+    pub written: usize,
+}
+
+/// one pass of the throttle / re-registration tail of run_io_loop
+#[derive(Clone, Debug)]
+pub struct TailRec {
+    pub listening_before: bool,
+    pub need_before: bool,
+    pub have_written_before: bool,
+    pub had_data: bool,
+    pub outlen: usize,
+    pub listening_after: bool,
+    pub need_after: bool,
+    pub have_written_after: bool,
+}
+
+thread_local! {
+    static TAIL_TRACE: RefCell<Option<Vec<TailRec>>> = RefCell::new(None);
+}
+
+pub(crate) fn trace_tail(rec: TailRec) {
+    TAIL_TRACE.with(|t| {
+        if let Some(v) = t.borrow_mut().as_mut() {
+            v.push(rec);
+        }
+    });
+}
+
+/// the publishers' and the transport's side, handed to the callback
+pub struct LoopClient {
+    ch0: Option<IoLoopHandle0>,
+    handles: HashMap<u16, IoLoopHandle>,
+    shared: Arc<Mutex<LoopShared>>,
+    kick: mio::SetReadiness,
+}
+
+impl LoopClient {
+    /// try_send of Send(bytes) into the mailbox of channel `ch`
+    pub fn send(&mut self, ch: u16, bytes: Vec<u8>) -> bool {
+        match self.handles.get_mut(&ch) {
+            Some(h) => h.verif_try_send(IoLoopMessage::Send(raw_buf(bytes))),
+            None => false,
+        }
+    }
+    pub fn alloc_req(&mut self) -> bool {
+        match self.ch0.as_mut() {
+            Some(h) => h.verif_try_send_alloc(None),
+            None => false,
+        }
+    }
+    /// the reply to an allocation request, if it has arrived; the handle is kept
+    pub fn take_alloc(&mut self) -> Option<u16> {
+        match self.ch0.as_mut()?.verif_try_recv_alloc() {
+            Ok(Ok(handle)) => {
+                let id = handle.channel_id();
+                self.handles.insert(id, handle);
+                Some(id)
+            }
+            _ => None,
+        }
+    }
+    pub fn drop_handle(&mut self, ch: u16) {
+        self.handles.remove(&ch);
+    }
+    /// what the transport does with the next write calls (then: would block)
+    pub fn script_writes(&mut self, w: Vec<Wr>) {
+        self.shared.lock().unwrap().writes = w.into_iter().collect();
+    }
+    pub fn written_len(&self) -> usize {
+        self.shared.lock().unwrap().written.len()
+    }
+    pub fn take_written(&mut self) -> Vec<u8> {
+        std::mem::take(&mut self.shared.lock().unwrap().written)
+    }
+    pub fn interests(&self) -> Vec<u8> {
+        self.shared.lock().unwrap().interests.clone()
+    }
+}
+
+/// Run the real loop until the callback says stop (or the loop fails). The callback gets
+/// the events of the batch just handled, the out-buffer's length and channels_need_repoll.
+pub fn run_loop(
+    bound: usize,
+    high: usize,
+    low: usize,
+    cb: &mut dyn FnMut(&[LoopEvent], &mut LoopClient, usize, bool) -> bool,
+) -> (Result<()>, Vec<TailRec>) {
+    let tuning = ConnectionTuning::default()
+        .mem_channel_bound(bound)
+        .buffered_writes_high_water(high)
+        .buffered_writes_low_water(low);
+    let mut io = match IoLoop::new(tuning) {
+        Ok(io) => io,
+        Err(e) => return (Err(e), Vec::new()),
+    };
+    let (ch0_slot, ch0_handle) = Channel0Slot::new(bound);
+    io.inner.chan_slots.set_channel_max(2047);
+    io.inner.outbuf.clear();
+    // a batch without events would otherwise block for ever
+    io.connection_timeout = Some(std::time::Duration::from_secs(3));
+    let shared = Arc::new(Mutex::new(LoopShared {
+        writes: VecDeque::new(),
+        written: Vec::new(),
+        interests: Vec::new(),
+    }));
+    let (registration, kick) = mio::Registration::new2();
+    let mut stream = LoopStream {
+        registration,
+        shared: shared.clone(),
+    };
+    // as IoLoop::start and thread_main do
+    let reg = (|| -> io::Result<()> {
+        io.poll.register(
+            &stream,
+            STREAM,
+            Ready::readable() | Ready::writable(),
+            PollOpt::edge(),
+        )?;
+        io.poll.register(
+            &ch0_slot.common.rx,
+            Token(0),
+            Ready::readable(),
+            PollOpt::edge(),
+        )?;
+        io.poll.register(
+            &ch0_slot.set_blocked_rx,
+            SET_BLOCKED_TX,
+            Ready::readable(),
+            PollOpt::edge(),
+        )?;
+        io.poll.register(
+            &ch0_slot.alloc_chan_req_rx,
+            ALLOC_CHANNEL,
+            Ready::readable(),
+            PollOpt::edge(),
+        )
+    })();
+    if let Err(e) = reg.context(RegisterWithPollHandleSnafu) {
+        return (Err(e), Vec::new());
+    }
+    let mut state = ConnectionState::Steady(ch0_slot);
+    let client = RefCell::new(LoopClient {
+        ch0: Some(ch0_handle),
+        handles: HashMap::new(),
+        shared: shared.clone(),
+        kick,
+    });
+    let events: RefCell<Vec<LoopEvent>> = RefCell::new(Vec::new());
+    let cb = RefCell::new(cb);
+    TAIL_TRACE.with(|t| *t.borrow_mut() = Some(Vec::new()));
+    let _ = client
+        .borrow()
+        .kick
+        .set_readiness(Ready::readable() | Ready::writable());
+    let result = io.run_io_loop(
+        &mut stream,
+        &mut state,
+        |io, stream, state, event| {
+            let token = event.token().0;
+            let before = shared.lock().unwrap().written.len();
+            let r = io.handle_steady_event(stream, state, event);
+            let after = shared.lock().unwrap().written.len();
+            events.borrow_mut().push(LoopEvent {
+                token,
+                ok: r.is_ok(),
+                client_dropped: matches!(r, Err(Error::EventLoopClientDropped)),
+                out_after: io.inner.outbuf.len(),
+                need_after: io.inner.channels_need_repoll,
+                written: after - before,
+            });
+            r
+        },
+        true,
+        |io, _state| {
+            let evs: Vec<LoopEvent> = events.borrow_mut().drain(..).collect();
+            let mut cl = client.borrow_mut();
+            let go_on = (cb.borrow_mut())(
+                &evs,
+                &mut cl,
+                io.inner.outbuf.len(),
+                io.inner.channels_need_repoll,
+            );
+            let _ = cl.kick.set_readiness(Ready::readable() | Ready::writable());
+            !go_on
+        },
+    );
+    let tails = TAIL_TRACE.with(|t| t.borrow_mut().take().unwrap_or_default());
+    // a failing event is not followed by a callback: hand its batch over now
+    let rest: Vec<LoopEvent> = events.borrow_mut().drain(..).collect();
+    if !rest.is_empty() {
+        let mut cl = client.borrow_mut();
+        let _ = (cb.borrow_mut())(&rest, &mut cl, io.inner.outbuf.len(), io.inner.channels_need_repoll);
+    }
+    (result, tails)
+}
